@@ -64,7 +64,6 @@ impl RingH {
     }
 
     fn process(&mut self, c: usize) {
-        let limit = self.item_limit;
         let conn = match self.conns[c].as_mut() {
             Some(x) => x,
             None => return,
@@ -110,7 +109,6 @@ impl RingH {
                 BinaryRequest::Quit(_) => close_after = true,
                 BinaryRequest::ItemTooLarge(_) => {
                     let bl = body_length_of(&decoded);
-                    debug_assert!(bl > limit);
                     conn.skip = bl as u64;
                 }
                 _ => {}
